@@ -16,7 +16,8 @@ from typing import Dict, List, Optional, Set, Tuple
 
 from ..cfg import CFG
 from ..ledger import POOL_MOD, PoolModel
-from ..model import (AnalysisError, FuncInfo, Repo, dotted, norm,
+from ..model import (AnalysisError, FuncInfo, Repo, call_name, dotted, kwarg,
+                     norm,
                      walk_no_nested, module_attr_writes)
 
 SCOPE_NOTE = ('scope: classes Block, BasePool, Pool of '
@@ -571,6 +572,9 @@ def run(repo: Repo, ctx) -> None:
     ctx.floor('C15.R5', 4)
     _affinity(pm, ctx)
 
+    # ---- R12 the reported usage is the ledger -------------------------------
+    _reported_usage(pm, ctx)
+
 
 def _conjuncts(e):
     if isinstance(e, ast.BoolOp) and isinstance(e.op, ast.And):
@@ -1095,3 +1099,63 @@ def _affinity(pm: PoolModel, ctx) -> None:
                 ctx.ob('C15.R5', f'{short(f)}:dbname-write', ok,
                        'Block.dbname reassigned', f'{f.module.rel()}:{n.lineno}',
                        sample='dbname set once in Block.__init__')
+
+
+
+def _reported_usage(pm: PoolModel, ctx) -> None:
+    """C15.R12 what the pool reports as its usage is read from the ledger.
+    R1 shows `_cur_capacity` equals the number of connections that are open,
+    being opened or being closed: it is the one counter the close paths hold
+    until the disconnect has completed (a connection being closed has already
+    left its block's `conns`).  A report computed from the blocks' own
+    counters therefore drops the connections being closed."""
+    ctx.floor('C15.R12', 2)
+    LEDGER = '_cur_capacity'
+
+    def reads_ledger(e: ast.AST, fn: Optional[ast.AST] = None, depth=3):
+        for x in ast.walk(e):
+            if isinstance(x, ast.Attribute) and x.attr == LEDGER:
+                return True
+            if depth and fn is not None and isinstance(x, ast.Name):
+                for st in ast.walk(fn):
+                    if isinstance(st, ast.Assign) and any(
+                            isinstance(t, ast.Name) and t.id == x.id
+                            for t in st.targets) and reads_ledger(
+                                st.value, fn, depth - 1):
+                        return True
+        return False
+    n = 0
+    for cls in (pm.base, pm.pool):
+        for name, f in cls.methods.items():
+            if name == 'current_capacity':
+                rets = [r for r in ast.walk(f.node)
+                        if isinstance(r, ast.Return) and r.value is not None]
+                ctx.saw(f)
+                n += 1
+                ok = bool(rets) and all(reads_ledger(r.value, f.node)
+                                        for r in rets)
+                ctx.ob('C15.R12', f'{cls.name}.current_capacity:is-the-ledger',
+                       ok, f'current_capacity returns '
+                       f'`{norm(rets[0].value)[:60] if rets else None}`, not '
+                       f'the ledger {LEDGER}: connections that are being '
+                       f'closed have left their block already and drop out '
+                       f'of the reported usage while they still occupy a '
+                       f'backend slot', f.loc,
+                       sample=f'return self.{LEDGER}')
+            for c in ast.walk(f.node):
+                if isinstance(c, ast.Call) and (call_name(c) or '').split(
+                        '.')[-1] == 'Snapshot':
+                    v = kwarg(c, 'capacity')
+                    if v is None:
+                        continue
+                    n += 1
+                    ctx.saw(f)
+                    ctx.ob('C15.R12', f'{cls.name}.{name}:snapshot-capacity',
+                           reads_ledger(v, f.node),
+                           f'the pool snapshot reports capacity='
+                           f'`{norm(v)[:60]}`, not the ledger {LEDGER}',
+                           f'{f.module.rel()}:{c.lineno}',
+                           sample=f'capacity=self.{LEDGER}')
+    if n < 2:
+        raise AnalysisError(f'C15.R12: only {n} usage reports found '
+                            f'(current_capacity, Snapshot(capacity=..))')
